@@ -188,6 +188,27 @@ class NumpyShim:
             return 1 if x > 0 else (-1 if x < 0 else 0)
         return _np.sign(x)
 
+    def mean(self, x, *a, **k):
+        if isinstance(x, (list, tuple, SymArr)) and any(is_sym(e) for e in x):
+            tot = 0
+            for e in x:
+                tot = tot + e
+            return tot / len(x)
+        return _np.mean(x, *a, **k)
+
+    def searchsorted(self, arr, v, *a, **k):
+        if is_sym(v) or (isinstance(arr, (list, tuple, SymArr)) and any(is_sym(e) for e in arr)):
+            assert not a and not k      # side="left"
+            return sum(1 for e in arr if e < v)
+        return _np.searchsorted(arr, v, *a, **k)
+
+    def insert(self, arr, index, v, *a, **k):
+        if is_sym(v) or isinstance(arr, SymArr):
+            items = list(arr)
+            items.insert(int(index), v)
+            return SymArr(items)
+        return _np.insert(arr, index, v, *a, **k)
+
     # ---- transcendental functions: fresh reals + instantiated axioms --------------------
     def log(self, v):
         if not is_sym(v):
@@ -252,6 +273,9 @@ def shim_selftest():
         assert s.minimum(x, 0.3) == _np.minimum(x, 0.3) and s.maximum(x, 0.3) == _np.maximum(x, 0.3); n += 2
         assert bool(s.isnan(x)) == bool(_np.isnan(x)); n += 1
         assert bool(s.isclose(x, x + 1e-9)) == bool(_np.isclose(x, x + 1e-9)); n += 1
+    assert s.mean([1.0, 2.0, 4.0]) == _np.mean([1.0, 2.0, 4.0]); n += 1
+    for v in (0.0, 1.0, 1.5, 2.0, 9.0):
+        assert s.searchsorted([1.0, 2.0, 2.0, 3.0], v) == _np.searchsorted([1.0, 2.0, 2.0, 3.0], v); n += 1
     return n
 
 
